@@ -118,20 +118,23 @@ HistVerdict(o) == IF ~WellFormed(o.sig) THEN "spec_bad_signature"
 
 \* ------------------------------------------------------------------------------------- memo
 \* state: [memo, evals] of Decorators!MemoCall; an observed event is [cc, out, evals]
+\* one step of the fold: [v = the clause event e breaks ("" = none), m, ev = the memo machine after it]
+MemoStep(sig, e, m, ev) ==
+    LET cc == e.cc  r == MemoCall(m, ev, sig, cc)
+        shape == IF HasQuiet(cc) THEN e.out = None ELSE IsPair(e.out) /\ e.out[2][1] = Bind(sig, cc)
+        No(cl) == [v |-> cl, m |-> m, ev |-> ev] IN
+    IF ~Valid(sig, cc) \/ ~IsSpelling(e.order, cc) THEN No("spec_invalid_call")
+    ELSE IF HasBad(cc) THEN (IF e.out = Raises(FailClass(cc)) /\ e.evals > ev THEN [v |-> "", m |-> m, ev |-> e.evals] ELSE No("transparent_call"))
+    ELSE IF ~shape THEN No("transparent_call")
+    ELSE IF e.out = r.out /\ e.evals = r.evals THEN [v |-> "", m |-> r.memo, ev |-> r.evals]
+    \* Uncached: an unhashable key met again may be evaluated again (its first result stays in the memo)
+    ELSE IF UnhashableCall(cc) /\ e.evals = ev + 1 /\ e.out = Result(sig, cc, ev + 1) THEN [v |-> "", m |-> m, ev |-> ev + 1]
+    ELSE No(IF MemoIdx(m, cc) # {} THEN "memo_first_result" ELSE "memo_evaluates_once")
 RECURSIVE MemoFold(_, _, _, _, _)
 MemoFold(sig, es, i, m, ev) ==
     IF i > Len(es) THEN ""
-    ELSE LET e == es[i]  cc == e.cc  r == MemoCall(m, ev, sig, cc)
-             at == "@" \o ToString(i)
-             shape == IF HasQuiet(cc) THEN e.out = None ELSE IsPair(e.out) /\ e.out[2][1] = Bind(sig, cc) IN
-         IF ~Valid(sig, cc) \/ ~IsSpelling(e.order, cc) THEN "spec_invalid_call"
-         ELSE IF HasBad(cc) THEN (IF e.out = Raises(FailClass(cc)) /\ e.evals > ev THEN MemoFold(sig, es, i + 1, m, e.evals)
-                                  ELSE "transparent_call" \o at)
-         ELSE IF ~shape THEN "transparent_call" \o at
-         ELSE IF e.out = r.out /\ e.evals = r.evals THEN MemoFold(sig, es, i + 1, r.memo, r.evals)
-         \* Uncached: an unhashable key met again may be evaluated again (its first result stays in the memo)
-         ELSE IF UnhashableCall(cc) /\ e.evals = ev + 1 /\ e.out = Result(sig, cc, ev + 1) THEN MemoFold(sig, es, i + 1, m, ev + 1)
-         ELSE (IF MemoIdx(m, cc) # {} THEN "memo_first_result" ELSE "memo_evaluates_once") \o at
+    ELSE LET r == MemoStep(sig, es[i], m, ev) IN
+         IF r.v # "" THEN r.v \o "@" \o ToString(i) ELSE MemoFold(sig, es, i + 1, r.m, r.ev)
 MemoVerdict(o) == IF ~WellFormed(o.sig) THEN "spec_bad_signature" ELSE MemoFold(o.sig, o.events, 1, <<>>, 0)
 
 \* ------------------------------------------------------------------------------------- args
